@@ -106,6 +106,11 @@ def run_case(case):
         else:
             sel = case["selector"]
             q = colour.QueryColourValueDTR(sel) if case["legal"] else sel
+            if isinstance(sel, str) and sel.startswith("@"):
+                from dali import command as _c, frame as _f
+                q = {"@limit:TcWarmest": colour.StoreColourTemperatureTcLimitDTR2.TcWarmest,
+                     "@limit:TcCoolest": colour.StoreColourTemperatureTcLimitDTR2.TcCoolest,
+                     "@resp:1": _c.NumericResponse(_f.BackwardFrame(1)), "@float:2.0": 2.0, "@bool": True}[sel]
             gen = gs.QueryDT8ColourValue(_dest(case["dest"]), q)
         ev, out = drive(gen, answer, 50)
     except Exception as e:  # noqa
@@ -151,6 +156,10 @@ def cases(tier, seed):
                 cs.append({"seq": "query", "dest": ("short", 5), "selector": s, "legal": 1,
                            "unit": _unit(rng, report=rng.randrange(0xFF00), sel=s, fault=(at, fk))})
     for bad in (2, 16, 300, "x", None):
+        cs.append({"seq": "query", "dest": ("short", 5), "selector": bad, "legal": 0, "unit": _unit(rng)})
+    # things that are not query selectors although they carry a .value that is one: members of other enumerations,
+    # a response object, a float, a bool
+    for bad in ("@limit:TcWarmest", "@limit:TcCoolest", "@resp:1", "@float:2.0", "@bool"):
         cs.append({"seq": "query", "dest": ("short", 5), "selector": bad, "legal": 0, "unit": _unit(rng)})
     return cs
 
